@@ -14,6 +14,7 @@ A BAM is described by a picklable/JSON-able spec  [variant, D, min_mq, layout]:
                   and records with two reasons not to be counted (duplicate+mp, duplicate+low MAPQ, mp+low MAPQ)
                   so that switching ONE filter off (dedup=False, ignore_mp) must not let them through
           'extsm' ext without the records that lack SM (for the entry point that has no default cell name)
+          'sparse' a few records only, every site in a stretch no alignment overlaps (read up to D bases beside it)
           'nods'  core + records WITHOUT a DS tag (reads starting / ending on a job boundary, both strands, with
                   and without SM, and as duplicate / read 2): the property does not say in which bin such a
                   record belongs, only that it is counted once and the same way for every job split
@@ -92,6 +93,24 @@ def records(spec):
         rec.update(kw)
         recs.append(rec)
 
+    if variant == 'sparse':
+        # a handful of records per contig, each with its site up to D bases beside the read in a stretch that NO alignment
+        # overlaps (coverage gaps wider than a job): the job that owns the site sees nothing but its padding
+        for contig, length in LAYOUTS[layout]:
+            if length < 3 * RL:
+                add(contig, 0, RL // 2, False, ['sparse', 'site-inside-read'])
+                continue
+            k = len(recs)
+            if k % 2 == 0:
+                pos = length - RL
+                for site in sorted({max(0, pos - D), max(0, pos - D // 2)}):
+                    for reverse in (False, True):
+                        add(contig, pos, site, reverse, ['sparse', 'read-right-of-site', 'rev' if reverse else 'fwd'])
+            else:
+                for site in sorted({min(length - 1, RL - 1 + D), min(length - 1, RL - 1 + D // 2)}):
+                    for reverse in (False, True):
+                        add(contig, 0, site, reverse, ['sparse', 'read-left-of-site', 'rev' if reverse else 'fwd'])
+        return recs
     for contig, length in LAYOUTS[layout]:
         # ---- plain countable records: every boundary-ish site x placement x strand
         for site in sites_of(length):
